@@ -4,7 +4,7 @@ PROP = dict(
     level="exploration",
     stages=[
         dict(name="c04_json", src="harness/c04_json_roundtrip.cc", deps=("harness/c04/tree.hh", "harness/c05/refjson.hh"),
-             shards_quick=8, shards_thorough=16, timeout_quick=400, timeout_thorough=1500),
+             shards_quick=8, shards_thorough=16, timeout_quick=240, timeout_thorough=1500),
         dict(name="c04_py", kind="pydriver", driver="oracle/c04_json_py.py", shim="shim/c04_shim.cc",
              deps=("harness/c04/tree.hh", "shim/shim.hh", "oracle/c04_tree.py", "oracle/hyp_common.py"),
              shards_quick=8, shards_thorough=16, timeout_quick=400, timeout_thorough=1500),
